@@ -41,6 +41,11 @@ var Solvers = []SolverSpec{
 	{Name: "z3-new/seed3", Bin: "z3-new", Args: func(f string, t int) []string {
 		return []string{fmt.Sprintf("-T:%d", t), "smt.random_seed=3", "sat.random_seed=3", f}
 	}},
+	// the new SAT-based core: decided in 14 s an obligation over many merged return paths (ite-heavy heap terms)
+	// that the default core and cvc5 did not decide in 40 s
+	{Name: "z3-new/euf", Bin: "z3-new", Args: func(f string, t int) []string {
+		return []string{fmt.Sprintf("-T:%d", t), "sat.euf=true", f}
+	}},
 }
 
 func runOne(ctx context.Context, sp SolverSpec, file string, timeoutS int) Result {
